@@ -483,6 +483,7 @@ def main(argv):
                        'child classes by rotation, arity of ExprOp/ExprCompose up to 4) and the recursion scheme of MatchExpr per class of the matched node (which child pairs are matched, with which table, what is returned) - %d obligations; plus run-time twins of the contracts of get_r/get_w/get_expr_ids/MatchExpr and dependency clauses by z3 per tree' % nind)
     run.samples = [dstr(d) for d in trees[:3] + trees[-3:]]
     run.trust('z3; liftvc/den.py; the reference matcher is_instance in checks/C16.py')
+    run.assume('induction steps (C16smt): finite acyclic expression trees; Dep of a node is the union of its value children (den is a function of them); test_set assumed in the MatchExpr scheme (any of False / True / table)')
     return run.finish()
 
 if __name__ == '__main__':
